@@ -237,3 +237,24 @@ def shim_np(S, module, extra=None, names=('np',)):
         if hasattr(module, n):
             S.patch(module, n, sh)
     return sh
+
+
+def shim_xarray_mean(S):
+    """xarray's in-house nanmean for dtype=object forces dtype=float; for proxies
+    (which are never NaN) it is replaced by sum/count with dtype=object."""
+    if not S.sym:
+        return
+    import xarray.computation.nanops as nanops
+
+    def _nanmean_ddof_object(ddof, value, axis=None, dtype=None, **kwargs):
+        value = _np.asarray(value, dtype=object)
+        if axis is None:
+            n = value.size
+        else:
+            axes = axis if isinstance(axis, (tuple, list)) else (axis,)
+            n = 1
+            for a in axes:
+                n *= value.shape[a]
+        data = _np.sum(value, axis=axis, dtype=object, **kwargs)
+        return data / (n - ddof)
+    S.patch(nanops, '_nanmean_ddof_object', _nanmean_ddof_object)
